@@ -53,6 +53,13 @@ let symptom (m : string) (s : string) : string =
   else "values"
 
 let () =
+  (* serx: unsafe.Pointer / uintptr tensors, SPEC only (the property's own disjunction): the tensor
+     is refused when written, or it comes back with the same element type, shape and elements *)
+  register2 "serx" (fun a impl ->
+      let refused = String.length impl >= 5 && String.sub impl 0 5 = "E=err" in
+      let want = if refused then impl else Printf.sprintf "E=ok D=ok dt=%s same=1" (if a.(0) = "ptr" then "unsafe.Pointer" else "uintptr") in
+      { model = "-"; spec = want; cls = if impl = want then "" else Printf.sprintf "serx.%s:%s:%s" a.(1) a.(0)
+                                           (if String.length impl >= 9 && String.sub impl 5 4 = "D=ok" then "values" else "unreadable") });
   register2 "ser" (fun a impl ->
       let dt = a.(0) and fmt = a.(1) and ti = int_of_string a.(2) and mask = a.(3) in
       let ops = Prog.split_ops a.(4) in
